@@ -36,7 +36,10 @@ def _seq(ops, impl, via, seed, tid):
 
 def slim(t):
     ev = []
+    drop = {1} if t.get('cfg', {}).get('lock_client') else ()
     for e in t['ev']:
+        if e.get('c') in drop:
+            continue                 # the independent lock holder (a raw connection): not an Index client
         if e['ev'] in ('call', 'ret'):
             ev.append({k: e[k] for k in ('ev', 'c', 'op', 'a', 'ret') if k in e})
         elif e['ev'] in ('commit', 'awrite', 'final'):
@@ -105,6 +108,14 @@ def run(prop, tier, seed):
         cfg = dict(policy='none', cull=10, limit=2 ** 30, stats=False, shared=0, kind='index', timeout=0, busy_budget=2,
                    init_pairs=[[1, 1], [2, 2], [7, 3]])
         cj_dfs.append((cfg, {1: [o('delitem', k=8), o('popitem', last=1)], 2: [b]}, 2, 60 if tier == 'quick' else 300, seed))
+    # every operation of an Index waits for the write lock (C14): an independent connection holds it when the operation starts
+    # or takes it while the operation works, and gives it up after a failed attempt - no operation may fail
+    from .conc import op as _op
+    for b in (o('setitem', k=2, v=5), o('setitem', k=7, v=F2), o('delitem', k=2), o('pop', k=2, d=[]), o('popitem', last=1),
+              o('setdefault', k=7, v=5), o('update', pairs=[[7, 5], [2, 6]]), o('clear')):
+        cfg = dict(policy='none', cull=10, limit=2 ** 30, stats=False, shared=0, kind='index', timeout=0, busy_budget=1,
+                   init_pairs=[[1, 1], [2, F1]], lock_client=1)
+        cj_dfs.append((cfg, {1: [_op('lock'), _op('unlock')], 2: [b, o('len')]}, 2, 25 if tier == 'quick' else 120, seed))
     for i in range(60 if tier == 'quick' else 1500):
         cfg = dict(policy='none', cull=10, limit=2 ** 30, stats=False, shared=rng.randrange(2), kind='index', timeout=0,
                    busy_budget=2, init_pairs=rng.choice([[], [[2, F1]], [[2, 3], [7, F1]]]))
